@@ -289,12 +289,18 @@ def _array_case(draw):
     out_dtype = 'same'
     if out != 'none' and draw(st.integers(0, 3)) == 0:
         out_dtype = 'wider'
-    return _adesc(old, new, off, mode, c, dtype,
-                  order=draw(st.sampled_from(['C', 'F', 'strided'])),
-                  out=out, out_dtype=out_dtype,
-                  offset_none=draw(st.booleans()) and not any(off),
-                  seed=draw(st.integers(0, 2 ** 31 - 1)),
-                  offset_scalar=scalar)
+    d = _adesc(old, new, off, mode, c, dtype,
+               order=draw(st.sampled_from(['C', 'F', 'strided'])),
+               out=out, out_dtype=out_dtype,
+               offset_none=draw(st.booleans()) and not any(off),
+               seed=draw(st.integers(0, 2 ** 31 - 1)),
+               offset_scalar=scalar)
+    # the container of the (documented: array-like) input: plain ndarray, an
+    # ndarray subclass, an ODL tensor wrapping the array without copy (both
+    # share memory with the caller's data), or a nested list
+    d['arrkind'] = draw(st.sampled_from(['ndarray', 'ndarray', 'subclass',
+                                         'odl', 'list']))
+    return d
 
 
 @st.composite
@@ -446,9 +452,29 @@ def _order1_growth(old, new, off):
 # --------------------------------------------------------------------------
 # resize_array
 
-def _call_resize(arr, newshp, off, mode, c, direction, out, sig, offset_none):
+class _SubArray(np.ndarray):
+    """A trivial ndarray subclass (stands for memmap / matrix / user types)."""
+
+
+def _contain(arr, kind):
+    """The array-like handed to resize_array for input array ``arr``."""
+    if kind == 'subclass':
+        return arr.view(_SubArray)
+    if kind == 'odl' and arr.ndim >= 1 and arr.size > 0:
+        elem = odl.tensor_space(arr.shape, dtype=arr.dtype).element(arr)
+        return elem
+    if kind == 'list' and arr.size > 0 and arr.dtype in (
+            np.dtype('float64'), np.dtype('complex128'), np.dtype('int64')):
+        # (only dtypes a nested list converts back to)
+        return arr.tolist()
+    return arr
+
+
+def _call_resize(arr, newshp, off, mode, c, direction, out, sig, offset_none,
+                 arrkind='ndarray'):
     """Call the function under test; returns (result | None, raised).
     ``offset_none == 'scalar'`` passes the common offset as one integer."""
+    arr = _contain(arr, arrkind)
     kwargs = dict(pad_mode=mode, pad_const=c, direction=direction)
     if offset_none == 'scalar':
         kwargs['offset'] = int(off[0])
@@ -516,8 +542,9 @@ def _run_array(desc):
         notes['uncastable_const_without_padding_not_asserted'] += 1
         return Outcome('trivial', strata=['array|uncastable-nogrow'],
                        notes=dict(notes))
+    arrkind = desc.get('arrkind', 'ndarray')
     res, exc = _call_resize(x, new, off, mode, c, 'forward', make_out(new),
-                            sig, offset_none)
+                            sig, offset_none, arrkind)
     if why is not None and exc is None:
         raise Violation('C16|precondition|resize_array|forward,' + why,
                         'accepted: old {} new {} offset {} mode {} pad_const '
@@ -534,6 +561,7 @@ def _run_array(desc):
     strata = ['array|' + mode, 'array|shape:' + shape_reg,
               'array|ndim:{}'.format(nd), 'array|dtype:' + desc['dtype'],
               'array|order:' + desc['order'], 'array|out:' + okind,
+              'array|container:' + desc.get('arrkind', 'ndarray'),
               'array|cfg:{}|{}'.format(mode, shape_reg)]
     if okind != 'none':
         strata.append('array|out_dtype:' + desc['out_dtype'])
@@ -631,7 +659,7 @@ def _run_array(desc):
     yin = y.copy()
     yc = np.ascontiguousarray(y).astype(dt)
     ares, exc = _call_resize(y, old, off, mode, c, 'adjoint', make_out(old),
-                             sig, offset_none)
+                             sig, offset_none, arrkind)
     if why_adj is not None and exc is None:
         raise Violation('C16|precondition|resize_array|adjoint,' + why_adj,
                         'accepted: small {} large {} offset {} mode {} '
